@@ -77,6 +77,11 @@ def main():
                 mod = load_prop(req['scenario']['prop'])
                 res = run_one(mod, req['scenario'])
                 results.append(res)
+            elif op == 'exec_seq':
+                # a process history: the scenarios one after the other in this interpreter
+                for scen in req['scenarios']:
+                    mod = load_prop(scen['prop'])
+                    results.append(run_one(mod, scen))
             elif op == 'ping':
                 results.append({'pong': True, 'pid': os.getpid()})
             if timeout:
